@@ -337,6 +337,25 @@ fn run_case<A: Alphabet>(case: u64, rng: &mut Rng, rep: &mut Report, alpha: &str
     rep.sample(|| desc.clone().set("case", J::UInt(case)).set("steps_run", J::u(t1.len() - 1)).set("final_active", J::u(t1.last().unwrap().active.len())));
 }
 
+/// a short checked run on a small dataset (used by the memory-checker workload)
+pub fn short_run<A: Alphabet>(case: u64, rng: &mut Rng, rep: &mut Report, alpha: &str, steps: usize, arm: Arm) {
+    let k = k_of::<A>();
+    rep.eval();
+    let width = rng.range(2, 12);
+    let n = rng.range(3, 8);
+    let seqs: Vec<Vec<u8>> = (0..n).map(|_| (0..rng.range(width + 1, width + 60)).map(|_| rng.below(k - 1) as u8).collect()).collect();
+    let zoops = rng.chance(0.5);
+    let mode = if zoops { SamplerMode::Zoops } else { SamplerMode::Oops };
+    let desc = J::obj().set("alphabet", J::s(alpha)).set("width", J::u(width)).set("sequences", J::u(n)).set("arm", J::s(arm.name()));
+    let seed = rng.next_u64();
+    if let Err((kind, msg, wit)) = run_once::<A>(case, Some(rep), alpha, &seqs, width, mode, 2, if zoops { Some(3) } else { None }, None, steps, arm, seed, &desc) {
+        rep.violate(&kind, case, msg, wit);
+    }
+    let mut d = Digest::new();
+    d.bytes(b"sampler").u(seed);
+    rep.nontrivial(d.get());
+}
+
 pub fn run(cfg: &Config) -> Report {
     let n = cfg.n(240, 6000) as u64;
     run_cases(cfg, n, |case, rng, rep| {
